@@ -23,6 +23,8 @@ type propSpec struct {
 }
 
 var evalChain = []string{
+	// what Evaluate works on is what CreateEvaluator stored: the parsed tree, unchanged
+	"bexpr.CreateEvaluator", "bexpr.CreateFilter", "bexpr.compileRegexps",
 	"bexpr.Evaluator.Evaluate", "bexpr.evaluate", "bexpr.evaluateMatchExpression", "bexpr.evaluateCollectionExpression",
 	"bexpr.evaluateCollectionExpression$1",
 	"bexpr.getValue", "bexpr.evaluateNotPresent", "bexpr.doMatchEqual", "bexpr.doMatchIn", "bexpr.doMatchIsEmpty",
